@@ -186,3 +186,263 @@ def check_C02(tier):
     rep.cov["distinct_nontrivial"] = rep.cov["states"]
     rep.assumptions += ["Hashes.tla is the reference FastHash (anchored to SMHasher's verification value in the same run)"]
     return rep.finish()
+
+
+# ----------------------------------------------------------- C05 / C06 / C09 / C18
+
+def _sample_linear(rep, traces):
+    rep.sample({"linear_trace_events": [{k: v for k, v in e.items() if k != "post"}
+                                        for e in traces[0]["events"][:3]]})
+
+
+def _sample_log(rep, traces):
+    t = traces[0]
+    rep.sample({"log_trace": {k: t[k] for k in ("kind", "max_count", "NR", "W", "D")},
+                "events": [{k: v for k, v in e.items() if k not in ("post",)} for e in t["events"][:2]]})
+
+
+def check_C05(tier):
+    import cm_linear as L
+    import cm_log as G
+    rep = Report("C05", tier)
+    rng = _rng("C05")
+    quick = tier == "quick"
+    L.model_check(rep, [], ["AddEffectProp"], W=2, D=2, Cap=3, MaxTruth=3 if quick else 4, Slots=2, tag="c05lin")
+    G.model_check(rep, [], G.PROP_C05, W=2, D=1 if quick else 2, UMax=4, NR=1, Slots=1 if quick else 2,
+                  MaxTruth=4, B=2, tag="c05log")
+    idx = sorted(rng.sample(range(1, 17), 3) + [1, 16]) if quick else []
+    edges = L.export_edges(rep, 2, 2, 3, 3, 1 if quick else 2, False, "c05e", small=quick, env_idx=idx)
+    L.replay_edges(rep, edges, 3, True, rng, variants=1 if quick else 2)
+    n = 50 if quick else 500
+    lt = [L.random_history(rng, focus=rng.choice([None, "ceiling"])) for _ in range(n)]
+    for i in range(0, n, 150):
+        L.validate(rep, lt[i:i + 150], ["CellsBelowCap"], ["AddEffectProp"], tag="c05lt%d" % i)
+    gt = [G.random_history(rng, focus=rng.choice([None, None, "ceiling", "refill"])) for _ in range(n)]
+    for i in range(0, n, 150):
+        G.validate(rep, gt[i:i + 150], [], G.PROP_C05, tag="c05gt%d" % i)
+    _sample_linear(rep, lt)
+    _sample_log(rep, gt)
+    rep.cov["exhaustive"] = True
+    rep.cov["rule"] = ("TLC: AddEffect on every add transition of the small linear and log instances; edge replay of every "
+                       "add edge; validated traces of the three real classes (log draws placed around the decision boundary)")
+    rep.cov["distinct_nontrivial"] = rep.cov["states"]
+    rep.assumptions += ["increment probability oracle: CPython float base**-k with 1e-12 margins"]
+    return rep.finish()
+
+
+def _log_grid(quick):
+    import cm_log as G
+    if quick:
+        return [G.LogConfig("log8", 2**32 - 1, 15), G.LogConfig("log8", 1000, 3), G.LogConfig("log8", 2**40, 100)]
+    return [G.LogConfig(k, m, n) for k, m, n in
+            [("log8", 2**32 - 1, 15), ("log8", 1000, 3), ("log8", 300, 0), ("log8", 2**40, 100),
+             ("log8", 5000, 30), ("log8", 2**63, 0), ("log8", 10**6, 200), ("log8", 70000, 250)]]
+
+
+def check_C06(tier):
+    import cm_log as G
+    rep = Report("C06", tier)
+    rng = _rng("C06")
+    quick = tier == "quick"
+    # (a)+(d) design: lower bound, exactness in the reserved range, fresh draws
+    G.model_check(rep, G.INV_C06, G.PROP_C06, W=2, D=1, UMax=4, NR=1, Slots=2, MaxTruth=4, B=2, tag="c06mc")
+    if not quick:
+        G.model_check(rep, G.INV_C06, G.PROP_C06, W=2, D=2, UMax=4, NR=2, Slots=1, MaxTruth=5, B=3, tag="c06mc2")
+    # (c) unbiasedness: exact Markov chain of the update rule
+    cfg = common.write_cfg("logchain.cfg", open(common.SPEC + "/LogChain.cfg").read(), [], [])
+    r = common.run_tlc("LogChain", cfg, workers=1, tag="chain")
+    rep.add_tlc("LogChain (exact distribution, E[decoded] = N until the ceiling)", r)
+    if not r.ok:
+        rep.violation("LogChain: %s violated" % r.violated, {"kind": "model", "signature": {"model": r.violated}})
+    # (b) the increment law: one implementation test per transition of the counter chain
+    cfgs = _log_grid(quick)
+    batches = []
+    for cf in cfgs:
+        calls = G.step_calls(cf, range(256), rng)
+        for i in range(0, len(calls), 128):
+            batches.append(G.calls_batch(cf, calls[i:i + 128]))
+    cf16 = G.LogConfig("log16", 2**32 - 1, 1023)
+    counters = (sorted(set(list(range(0, 1100)) + list(range(65400, 65536)) + rng.sample(range(65536), 3000)))
+                if quick else range(65536))
+    calls = G.step_calls(cf16, counters, rng)
+    for i in range(0, len(calls), 4096):
+        batches.append(G.calls_batch(cf16, calls[i:i + 4096]))
+    if not quick:
+        cf16b = G.LogConfig("log16", 10**6, 100)
+        calls = G.step_calls(cf16b, range(65536), rng)
+        for i in range(0, len(calls), 4096):
+            batches.append(G.calls_batch(cf16b, calls[i:i + 4096]))
+        cfgs.append(cf16b)
+    G.validate_calls(rep, batches, "c06steps")
+    rep.sample({"step_call": batches[0]["calls"][40], "config": {k: batches[0][k] for k in ("kind", "max_count", "NR")}})
+    # decode law: observed table = closed formula, rises by base^(c-NR)
+    G.check_decode_table(rep, cfgs + [cf16], lambda cf: range(0, cf.umax + 1, 1 if cf.umax == 255 else 97))
+    # histories with placed draws, refills forced
+    n = 60 if quick else 600
+    gt = [G.random_history(rng, focus=rng.choice([None, "refill", "refill", "ceiling"])) for _ in range(n)]
+    for i in range(0, n, 150):
+        G.validate(rep, gt[i:i + 150], G.INV_C06, G.PROP_C06, tag="c06gt%d" % i)
+    _sample_log(rep, gt)
+    rep.cov["exhaustive"] = True
+    rep.cov["rule"] = ("every counter value x configuration x draws {0, P(1-1e-12), P(1+1e-12), 1-2^-53} is one validated "
+                       "transition; TLC exhaustive on the dyadic instance; exact Markov chain; validated histories")
+    rep.cov["distinct_nontrivial"] = rep.cov["states"] + rep.cov["evaluations"]
+    rep.assumptions += ["uniformity of the numpy/numba generators is trusted; freshness (replenished, never recycled, in [0,1)) is checked",
+                        "increment probability oracle: CPython float base**-k with 1e-12 margins"]
+    return rep.finish()
+
+
+def check_C09(tier):
+    import cm_linear as L
+    import cm_log as G
+    rep = Report("C09", tier)
+    rng = _rng("C09")
+    quick = tier == "quick"
+    L.model_check(rep, ["MergeAlgebra"], ["MergeEffectProp"], W=2, D=2, Cap=3, MaxTruth=3 if quick else 4, Slots=2, tag="c09lin")
+    G.model_check(rep, [], G.PROP_C09, W=2, D=1, UMax=4, NR=1, Slots=2, MaxTruth=4, B=2, tag="c09log")
+    # all 256 x 256 counter pairs (tables set directly) for every log8 configuration of the grid
+    batches = []
+    for cf in _log_grid(quick):
+        pairs = [(a, b) for a in range(256) for b in range(256)]
+        calls = G.merge_calls(cf, pairs)
+        for i in range(0, len(calls), 2048):
+            batches.append(G.calls_batch(cf, calls[i:i + 2048]))
+    # log16: every counter against the empty sketch and against itself, sampled pairs
+    for cf in ([G.LogConfig("log16", 2**32 - 1, 1023)] + ([] if quick else [G.LogConfig("log16", 10**6, 100)])):
+        step = 16 if quick else 1
+        pairs = [(c, 0) for c in range(0, 65536, step)] + [(0, c) for c in range(0, 65536, step)] + \
+                [(c, c) for c in range(0, 65536, step * 4)]
+        pairs += [(rng.randrange(65536), rng.randrange(65536)) for _ in range(20000 if quick else 10**6)]
+        pairs += [(rng.randrange(1100), rng.randrange(1100)) for _ in range(5000)]
+        calls = G.merge_calls(cf, pairs)
+        for i in range(0, len(calls), 4096):
+            batches.append(G.calls_batch(cf, calls[i:i + 4096]))
+    G.validate_calls(rep, batches, "c09pairs")
+    rep.sample({"merge_call": batches[0]["calls"][300], "config": {k: batches[0][k] for k in ("kind", "max_count", "NR")}})
+    n = 50 if quick else 400
+    lt = [L.random_history(rng, focus=rng.choice(["merge", "ceiling"])) for _ in range(n)]
+    for i in range(0, n, 150):
+        L.validate(rep, lt[i:i + 150], ["MergeAlgebra", "CellsBelowCap"], ["MergeEffectProp"], tag="c09lt%d" % i)
+    gt = [G.random_history(rng) for _ in range(n)]
+    for i in range(0, n, 150):
+        G.validate(rep, gt[i:i + 150], [], G.PROP_C09, tag="c09gt%d" % i)
+    _sample_linear(rep, lt)
+    rep.cov["exhaustive"] = True
+    rep.cov["rule"] = ("log8: all 65536 counter pairs per configuration; log16: every counter vs empty/itself + sampled pairs; "
+                       "each pair is one validated merge cell; linear: TLC exhaustive + validated histories with saturating merges")
+    rep.cov["distinct_nontrivial"] = rep.cov["evaluations"]
+    rep.assumptions += ["decoded values observed from the implementation's own decode, cross-checked against the closed formula (C06)",
+                        "either neighbour accepted within 2^-30 relative of the midpoint"]
+    return rep.finish()
+
+
+def check_C18(tier):
+    import cm_linear as L
+    import cm_log as G
+    import hh as H
+    rep = Report("C18", tier)
+    rng = _rng("C18")
+    quick = tier == "quick"
+    # design level: small ceilings reached within 2-3 operations, adds/merges repeated after saturation
+    L.model_check(rep, ["CellsBelowCap"], ["MonotoneProp"], W=2, D=2, Cap=3, MaxTruth=4 if quick else 6, Slots=2, tag="c18lin")
+    G.model_check(rep, [], G.PROP_C18, W=2, D=1, UMax=3, NR=1, Slots=2 if not quick else 1, MaxTruth=5, B=2, tag="c18log")
+    H.model_check(rep, ["CountsBelowCap"], H.PROP_C18, tag="c18hh", W=2, D=1, Cap=3, MaxTruth=4 if quick else 5, Slots=2)
+    # spec -> code at the real ceiling (scaled replay)
+    idx = sorted(rng.sample(range(1, 17), 2) + [1, 16]) if quick else []
+    edges = L.export_edges(rep, 2, 2, 3, 4, 1 if quick else 2, False, "c18e", small=True, env_idx=idx)
+    L.replay_edges(rep, edges, 3, True, rng, variants=1)
+    envs = H.observed_envs(2, 1, 2 if quick else 6, rng)
+    edges = H.export_edges(rep, envs, "c18he", 3, 3 if quick else 4, 2, False, False, True)
+    H.replay_edges(rep, edges, envs, 3, True)
+    # code -> spec: values landing within +-3 of the ceiling, repeated after saturation
+    n = 50 if quick else 500
+    lt = [L.random_history(rng, focus="ceiling") for _ in range(n)]
+    for i in range(0, n, 150):
+        L.validate(rep, lt[i:i + 150], ["CellsBelowCap", "Lower"], ["MonotoneProp"], tag="c18lt%d" % i)
+    gt = [G.random_history(rng, focus="ceiling") for _ in range(n)]
+    for i in range(0, n, 150):
+        G.validate(rep, gt[i:i + 150], [], G.PROP_C18, tag="c18gt%d" % i)
+    ht = [H.random_history(rng, focus="ceiling") for _ in range(n)]
+    for i in range(0, n, 150):
+        H.validate(rep, ht[i:i + 150], ["CountsBelowCap", "NoOver"], H.PROP_C18, tag="c18ht%d" % i)
+    # the ceiling of every accepted log configuration decodes to max_count, else ValueError
+    mcs = [300, 500, 1000, 5000, 70000, 10**6, 2**32 - 1, 2**40, 2**53, 2**63]
+    batches = []
+    for kind, um in (("log8", 255), ("log16", 65535)):
+        nrs = sorted(set([0, 1, 2, 3, 15, 30, 100, 200, 250, 253, 254] if um == 255 else
+                         [0, 1, 15, 1023, 5000, 30000, 60000, 65000, 65533, 65534]))
+        if not quick:
+            nrs = sorted(set(nrs + [rng.randrange(um) for _ in range(40)]))
+            mcs2 = mcs + [rng.randrange(300, 2**63) for _ in range(20)]
+        else:
+            mcs2 = mcs
+        calls, meta = G.ctor_calls(kind, [(m, n) for m in mcs2 for n in nrs])
+        batches.append(G.ctor_batch(kind, calls))
+        rep.sample({"ctor_grid": kind, "first": [list(map(str, x)) for x in meta[:3]]})
+    G.validate_calls(rep, batches, "c18ctor")
+    _sample_linear(rep, lt)
+    rep.cov["exhaustive"] = True
+    rep.cov["rule"] = ("TLC exhaustive with ceilings 3 (reached within 2-3 operations); scaled edge replay at 2^32-1; validated "
+                       "histories with values within +-3 of the ceiling; constructor grid max_count 300..2^63 x num_reserved 0..UMax-1")
+    rep.cov["distinct_nontrivial"] = rep.cov["states"]
+    rep.assumptions += ["grid points with max_count - nr within 1% of UMax - nr (ill-conditioned equation) are excluded"]
+    return rep.finish()
+
+
+# ------------------------------------------------------------------- C12 / C15
+
+def check_C12(tier):
+    import cm_linear as L
+    import cm_log as G
+    import hh as H
+    import hll as Y
+    rep = Report("C12", tier)
+    rng = _rng("C12")
+    quick = tier == "quick"
+    # design: add(k, v) = v unit adds; batch = loop (state-function identities on every reachable state)
+    L.model_check(rep, ["ValueIsUnitAdds", "BatchIsLoop"], [], W=2, D=2, Cap=3, MaxTruth=3 if quick else 4, Slots=1, tag="c12lin")
+    H.model_check(rep, ["ValueIsUnitAddsHH"], [], tag="c12hh", W=2, D=1, Cap=5, MaxTruth=3 if quick else 4, Slots=1)
+    # spec -> code: every batch edge replayed as ONE real call (unit operations: unscaled model)
+    idx = sorted(rng.sample(range(1, 17), 3)) if quick else []
+    edges = L.export_edges(rep, 2, 2, 1000, 2 if quick else 3, 1, True, "c12e", small=True, env_idx=idx)
+    L.replay_edges(rep, edges, 1000, False, rng, variants=1 if quick else 2)
+    envs = H.observed_envs(2, 1, 2 if quick else 6, rng)
+    edges = H.export_edges(rep, envs, "c12he", 1000, 2 if quick else 3, 1, True, False, True)
+    H.replay_edges(rep, edges, envs, 1000, False)
+    # code -> spec: batch-heavy histories of all five classes; one real call per batch event,
+    # the specification computes the loop of single adds
+    n = 40 if quick else 400
+    lt = [L.random_history(rng, focus="batch") for _ in range(n)]
+    gt = [G.random_history(rng, focus="batch") for _ in range(n)]
+    ht = [H.random_history(rng, focus="batch") for _ in range(n)]
+    yt = [Y.random_history(rng) for _ in range(n)]
+    for i in range(0, n, 150):
+        L.validate(rep, lt[i:i + 150], [], [], tag="c12lt%d" % i)
+        G.validate(rep, gt[i:i + 150], [], [], tag="c12gt%d" % i)
+        H.validate(rep, ht[i:i + 150], [], [], tag="c12ht%d" % i)
+        Y.validate(rep, yt[i:i + 150], [], tag="c12yt%d" % i)
+    for must in ("update_list", "update_dict", "add_ngram", "update_ngram"):
+        if rep.cov["actions"].get(must, 0) < 4:
+            raise common.MachineryError("vacuous: batch entry point %s hardly exercised" % must)
+    _sample_linear(rep, lt)
+    rep.sample({"hh_batch_event": next(({k: v for k, v in e.items() if k != "post"} for t in ht for e in t["events"]
+                                        if e["ev"] in ("update_dict", "add_ngram")), None)})
+    rep.cov["exhaustive"] = True
+    rep.cov["rule"] = ("TLC: identities on every reachable state of the small instances; every batch edge replayed as one real "
+                       "call; batch-heavy histories of CountMinLinear/Log8/Log16/HeavyHitters/HyperLogLog validated event by event")
+    rep.cov["distinct_nontrivial"] = rep.cov["states"]
+    return rep.finish()
+
+
+def check_C15(tier):
+    import compat as C
+    rep = Report("C15", tier)
+    rng = _rng("C15")
+    C.run_grid(rep, rng, tier == "quick")
+    rep.cov["exhaustive"] = True
+    rep.cov["rule"] = ("every ordered pair of the per-family configuration grid (each differing from a base in one parameter, "
+                       "all counter types at equal shape), both operands non-empty; outcome and content digests before/after")
+    rep.cov["distinct_nontrivial"] = rep.cov["evaluations"]
+    rep.cov["states"] = max(rep.cov["states"], 1)
+    rep.cov["transitions"] = max(rep.cov["transitions"], 1)
+    return rep.finish()
